@@ -28,7 +28,8 @@ func checkC18(c *core.Ctx) error {
 		"(R2) for every type with MarshalJSON and UnmarshalJSON each wire value the encoder can emit (struct, slice or scalar) is accepted by a decode target with the same field names and types, and every decoded field is used; " +
 		"(R3) the table writers (Fprintf formats of Export) and readers (field-count tests of Import) agree on the number of columns of the header and of the body lines; " +
 		"(R4) decoders cannot crash on malformed input: decoded slices are indexed by a constant only after a length test, reflect.TypeOf(x).Kind() only after x != nil, no single-value type assertion, " +
-		"and every argument-dependent panic guard of a constructor that a decoder calls with decoded data is tested by the decoder first; (R5) decoded dimensions are related to the decoded payload before they are stored."
+		"and every argument-dependent panic guard of a constructor that a decoder calls with decoded data is tested by the decoder first; (R5) decoded dimensions are related to the decoded payload before they are stored." +
+		" (R7) Named configuration parameters written by ExportConfig are exactly those read by ImportConfig, each once. (R8) Field-by-field decoders assign every field of the receiver on every path to a successful return (must-assign dataflow with receiver-method summaries)."
 	c.Rule("C18.R1", "distribution registries and ExportConfig names agree: every registered name maps to a type whose ExportConfig emits that name, every emitted name is registered for that type", 60)
 	c.Rule("C18.R2", "MarshalJSON/UnmarshalJSON pairs agree on the wire type (field names and types); every decoded field is used", 40)
 	c.Rule("C18.R3", "Export/Import table formats agree on the number of columns (header and body lines)", 18)
